@@ -12,6 +12,10 @@ def caseOf : String → Option (Option (Stage × ErrClass))
   | "PutTooLarge" => some (some (.putToolchain, .toolchainTooLarge))
   | "AllocFail" | "AllocErr" => some (some (.alloc, .other))
   | "AllocHttp" => some (some (.alloc, .http4xx))
+  | "AllocTooLarge" => some (some (.alloc, .toolchainTooLarge))
+  | "SubmitHttp" => some (some (.submit, .http4xx))
+  | "SubmitTooLarge" => some (some (.submit, .toolchainTooLarge))
+  | "RunTooLarge" => some (some (.run, .toolchainTooLarge))
   | "SubmitNotFound" | "SubmitCannotCache" | "SubmitErr" => some (some (.submit, .other))
   | "RunErr" | "RunNotFound" => some (some (.run, .other))
   | "RunHttp" => some (some (.run, .http4xx))
